@@ -3,7 +3,7 @@ import RbpfModel.Generated.HelperFns
 namespace Rbpf
 open Rbpf.Helpers Rbpf.Generated.HelperFns
 
-theorem HelperFns_translated : gatherBytesSrcOk = true ∧ printfSrcOk = true ∧ memfrobSrcOk = true ∧ randRangeSrcOk = true := by decide
+theorem HelperFns_translated : gatherBytesSrcOk = true ∧ printfSrcOk = true ∧ memfrobSrcOk = true ∧ randRangeSrcOk = true ∧ strcmpSrcOk = true ∧ sqrtiSrcOk = true ∧ sqrtiShape = true := by decide
 
 /-- `gather_bytes`: the source's expression (`wrapping_shl` masks the count to the width) is the model's -/
 theorem HelperFns_gather (a1 a2 a3 a4 a5 : BitVec 64) : gatherBytesSrc a1 a2 a3 a4 a5 = gatherBytes a1 a2 a3 a4 a5 := by
@@ -37,5 +37,19 @@ theorem HelperFns_randRange (n min max : Nat) (hmax : max < 2 ^ 64) : randRangeS
   · simp only []
     split <;> split <;> first | rfl | omega
   · rfl
+
+/-- `strcmp`: the null test with its value, and one step of the comparison loop — where the source's loop continues the model recurses, where it stops the model returns the source's result -/
+theorem HelperFns_strcmp (p1 p2 : Nat) (s1 s2 : List (BitVec 8)) (x y : BitVec 8) (xs ys : List (BitVec 8)) :
+    strcmp p1 p2 s1 s2 = (if strcmpNullSrc p1 p2 then some strcmpNullValueSrc else strcmpBytes s1 s2) ∧
+    strcmpBytes (x :: xs) (y :: ys) = (if strcmpContinueSrc x y then strcmpBytes xs ys else some (strcmpResultSrc x y)) := by
+  constructor
+  · unfold strcmp strcmpNullSrc strcmpNullValueSrc
+    by_cases h : p1 = 0 ∨ p2 = 0 <;> simp [h]
+  · unfold strcmpContinueSrc strcmpResultSrc
+    simp only [strcmpBytes]
+    by_cases h1 : x = y
+    · subst h1
+      by_cases h2 : x = 0 <;> simp [h2]
+    · simp [h1]
 
 end Rbpf
